@@ -205,6 +205,21 @@ CHECKS = {
         "Trusted: mc/qref.py ZX semantics, pytket unitaries; tolerance 1e-9; circuits denoting 0 are "
         "counted apart (proportionality undecidable).",
         "DESIGN.md 4/C16"),
+    "C17": (
+        "exhaustive enumeration of simple ZX diagrams (export) and of simple pyzx graphs built directly "
+        "through pyzx (import) up to the bound; the real to_pyzx/from_pyzx compared through pyzx's own "
+        "tensor semantics and the textbook ZX reference",
+        "Export: every ZX diagram of the bounded universe (Z/X spiders of all arities, phases, H, SWAP, "
+        "scalars) whose wiring graph is simple: pyzx's to_matrix(preserve_scalar=True) of to_pyzx(d) must "
+        "equal the textbook value of d (vertex types, phases, Hadamard edges, order of inputs/outputs, "
+        "scalar); importing it back must give a well-typed diagram with the same wires and the same matrix "
+        "up to a scalar. Import: every graph of the enumerated family (<= 2 inputs/outputs, 1-3 spiders, "
+        "every attachment, spider types, spider-spider edge set, simple/Hadamard labelling, three vertex "
+        "numberings): same obligations against pyzx's matrix. Malformed boundaries must raise ValueError.",
+        "Runs against the installed pyzx 0.10.6 through mc/pyzx_adapter.py (list-valued inputs/outputs, float "
+        "phases, edge_type 0 for non-edges); pyzx's matrix convention is calibrated on a hand-built graph. "
+        "Tolerance 1e-7.",
+        "DESIGN.md 4/C17"),
 }
 
 PENDING_REASON = ("check not built yet in this session (planned: bounded exhaustive exploration as in "
